@@ -65,9 +65,9 @@ CHECKS = {
  "C18": ("A", "model_checking", "exhaustive product of accepted parameter configurations x user operations executed on the real handlers (two acceptance paths: governance messages, genesis validation+import)",
          "Every configuration of the parameter alphabet that a path accepts is followed by CreateClass, basket Create (several offers each), Sell+BuyDirect per allowed denom, Put+Take: operations whose preconditions hold must succeed without panic, creation fees are debited and burned exactly, underpaid/unfunded creations are rejected, no fee set => nothing charged.",
          "§7 C18", TRUST),
- "C19": ("B", "exploration", B_TECH + " + operation-sequence search for aliasing",
-         "~500 (thorough ~2000) decimal literals, all ordered pairs x 14 operations against big.Rat, operand immutability checked on the internal apd words, and a BFS over operation sequences on a shared pool for big.Int aliasing.",
-         "§7 C19", "Trusted base: Go math/big."),
+ "C19": ("A+B", "model_checking", B_TECH + " + operation-sequence search for aliasing and history dependence, for types/math; plus " + A_TECH + "exact truncation of coin amounts at the marketplace use sites on every fill",
+         "Arithmetic part: ~500 (thorough ~2000) decimal literals, all ordered pairs x 14 operations against big.Rat; every string over {0,1,5,.,-,+,e} up to length 5 (6) against the reference grammar; operand immutability on the internal apd words; a BFS over operation sequences on a shared pool for big.Int aliasing; a probe set that must be bit-identical after every earlier-operation kind. Use-site part: every successful BuyDirect of the fee-rate x order-history seeds pays the seller trunc(exact proceeds) and collects trunc(exact fees).",
+         "§7 C19", TRUST + " Go math/big is the arithmetic reference."),
  "C20": ("B", "exploration", "exhaustive product of inputs x environment answers against recording fakes of the ICA controller and capability keepers",
          "Owners x connections x message shapes x block times x channel/capability availability x SendTx outcome on the real keeper.SubmitTx: one packet on the owner's own port with exactly the inner message and timeout = block time + 60 s, or no send and an error.",
          "§7 C20", "Trusted base: ibc-go packet (de)serialisation used to decode the recorded packet (cross-checked by a hand-written wire reader)."),
